@@ -165,3 +165,63 @@ def random_traces(run, n, owner):
             traces.append({"id": tid, "events": evs})
             conc[tid] = cs
     judge(run, traces, conc, owner, "random")
+
+
+def aliased_traces(run, n, owner):
+    """Object identity between the arguments: the SAME envelope object in both positions (a root checked against its own rules), an
+    untrusted envelope wrapped around the trusted metadata's very `signed` object, and documents that share equal parts (key lists, rules).
+    The library is called on these objects as they are (no copies); the events are abstracted from their values and judged by
+    Trace_Delegation.tla, so the verdict has to be the one the values alone determine."""
+    fn = lib.cct("authentication").verify_delegation
+    keys = gamma.Keys(4, run.seed, offset=470)
+    r = random.Random(run.seed * 223 + 19)
+    traces, conc = [], {}
+    for tid in range(1, n + 1):
+        shared_list = [keys.pub[k] for k in r.sample(range(1, 5), r.randint(1, 3))]
+        own_list = [keys.pub[k] for k in r.sample(range(1, 5), r.randint(1, 3))]
+        dels = {"root": metadata.rule(shared_list, r.randint(1, 2)), "key_mgr": metadata.rule(r.choice([shared_list, own_list]), 1)}
+        if r.random() < 0.5:
+            dels["key_mgr"]["pubkeys"] = dels["root"]["pubkeys"] if r.random() < 0.5 else dels["key_mgr"]["pubkeys"]      # one list object in two rules
+        if r.random() < 0.4:
+            dels["pkg_mgr"] = dels[r.choice(["root", "key_mgr"])]                                                        # one rule object under two roles
+        ttype = r.choice(["root", "key_mgr"])
+        tdoc = metadata.delegating_doc(ttype, r.choice([1, 4]), dels, r)
+        Tb = twin_canon(tdoc)
+        gpg = r.random() < 0.4
+        signers = r.sample(range(1, 5), r.randint(1, 4))
+        hdr = r.choice(gamma.HEADERS)
+        sigs = {keys.pub[k]: ({"other_headers": hdr.hex(), "signature": keys.sign(k, crypto.gpg_digest(Tb, hdr)).hex()} if gpg
+                              else {"signature": keys.sign(k, Tb).hex()}) for k in signers}
+        trusted = {"signatures": dict(sigs), "signed": tdoc}
+        mode = r.choice(["same_envelope", "same_signed", "shared_parts"])
+        if mode == "same_envelope":
+            untrusted = trusted
+        elif mode == "same_signed":
+            untrusted = {"signatures": dict(sigs), "signed": trusted["signed"]}
+        else:
+            udoc = copy.deepcopy(tdoc)
+            udoc["x-tag"] = "edited copy"
+            if r.random() < 0.5:
+                udoc["type"] = r.choice(["root", "key_mgr"])
+            Ub = twin_canon(udoc)
+            usigs = {keys.pub[k]: ({"other_headers": hdr.hex(), "signature": keys.sign(k, crypto.gpg_digest(Ub, hdr)).hex()} if gpg
+                                   else {"signature": keys.sign(k, Ub).hex()}) for k in signers}
+            untrusted = {"signatures": usigs, "signed": gamma.share_equal_parts(udoc, trusted)}
+        evs, cs = [], []
+        for role in r.sample(["root", "key_mgr", "pkg_mgr", "nope"], 3):
+            snap = twin_canon([untrusted, trusted])
+            out, exc, _ = lib.call(fn, role, untrusted, trusted, gpg=gpg)
+            run.evaluations += 1
+            if twin_canon([untrusted, trusted]) != snap:
+                run.violation("verify_delegation modified its (aliased) arguments", {"kind": "verify_delegation", "mode": mode, "role": role})
+                break
+            ev = alpha_call(role, copy.deepcopy(untrusted), copy.deepcopy(trusted), gpg, out)
+            if ev:
+                evs.append(ev)
+                cs.append({"role": role, "untrusted": copy.deepcopy(untrusted), "trusted": copy.deepcopy(trusted), "gpg": gpg, "observed": out, "exc": exc,
+                           "aliasing": mode})
+        if evs:
+            traces.append({"id": tid, "events": evs})
+            conc[tid] = cs
+    judge(run, traces, conc, owner, "aliased-arguments")
+    run.extra["aliased_argument_traces"] = len(traces)
